@@ -1,10 +1,27 @@
-(* C40 — theorems (statements only; proofs are in Proofs*.v). *)
+(* C40 — theorems (statements only; proofs are in Proofs*.v).
+
+   Reading guide.  `installed c raw mangle filter`: the three tables contain the static chains of configuration c
+   (Model.v).  EVERY OTHER chain of the tables (dispatch, per-endpoint, policy, profile, ...) is universally
+   quantified; `hep_shapes` (Shape.v, decidable, checked on the real renderer's output by every run) only says that
+   the host-endpoint dispatch chains dispatch on interfaces and that a host endpoint chain consists of conntrack
+   rules, the jump to the failsafe chain and then ANYTHING.  Verdicts are per hook (Spec.hook) for an arbitrary
+   entry mark and conntrack state; the kernel's raw -> mangle -> filter ordering is the stated assumption. *)
 From Coq Require Import List NArith Bool String.
 From Verif.Common Require Import Packet Ipt.
-From Verif.C40 Require Import Model Spec Proofs.
+From Verif.C40 Require Import Model Spec Shape Proofs ProofsFailsafe ProofsFsHooks ProofsRaw ProofsMain.
 Import ListNotations.
 Open Scope N_scope.
 
-Theorem c40_failsafe_rule_jump_free : forall v d s f, jump_free (fs_rule v d s f).
-Proof. exact fs_rule_jump_free. Qed.
-Print Assumptions c40_failsafe_rule_jump_free.
+(* Failsafes: whatever the policy chains contain, a packet to a configured inbound failsafe port (not from a workload
+   interface, conntrack state not INVALID, not governed by the tunnel clause) is not dropped by Felix at the raw
+   PREROUTING, mangle PREROUTING and filter INPUT hooks; a packet to a configured outbound failsafe port is not
+   dropped at raw OUTPUT and filter OUTPUT.  (fs_in_ok / fs_out_ok are the oracle clauses of Spec.v.)
+   c_wg_raw = false: the Wireguard incoming-mark jump of raw PREROUTING is outside the proved domain. *)
+Theorem c40_failsafe_accept_all_paths : forall c raw mangle filter e p,
+  cfg_ok c -> c_wg_raw c = false ->
+  (forall q m, e_other e (2 * O_DST_LOCAL) (set_mark q m) = e_other e (2 * O_DST_LOCAL) q) ->
+  installed c raw mangle filter -> hep_shapes raw mangle filter ->
+  pk_ver p = c_ver c ->
+  fs_in_ok c raw mangle filter e p = true /\ fs_out_ok c raw filter e p = true.
+Proof. exact failsafe_accept_all_paths. Qed.
+Print Assumptions c40_failsafe_accept_all_paths.
